@@ -94,9 +94,14 @@ def gen_case(rng):
                       rng.randint(1, 30), rng.uniform(1, 50)])
     nds = rng.choice([1, 1, 1, 2, 3, 4])
     size = int(np.prod(shp, dtype=int))
-    thr = float(abs(ndtri(alpha / 2)))
-    if ndf is not None and ndf < 30:
-        thr *= 1 + 3.0 / ndf     # rough, only to place the cases
+    thr_normal = thr = float(abs(ndtri(alpha / 2)))
+    if ndf is not None:
+        # the critical value of the law actually used (only to place the
+        # cases; the oracle has its own)
+        from scipy.special import stdtrit
+        t_q = float(abs(stdtrit(ndf, alpha / 2)))
+        if math.isfinite(t_q) and t_q > 0:
+            thr = t_q
     ref_v = gen.values(rng, shp).ravel()
     ref_e = gen.errors(rng, shp).ravel()
     others = []
@@ -109,6 +114,10 @@ def gen_case(rng):
             den = math.hypot(ref_e[i], o_e[i])
             if rng.random() < p_fail:
                 tval = thr * rng.uniform(1.0, 3.0)
+            elif ndf is not None and rng.random() < 0.15:
+                # between the critical values of the normal and of the
+                # Student law (compatible for the latter only)
+                tval = rng.uniform(thr_normal, thr)
             else:
                 tval = thr * rng.choice([0.0, rng.uniform(0, 1.0),
                                          rng.uniform(0.9, 1.0)])
